@@ -1,6 +1,7 @@
 import KG.Model.Gateway
 import KG.Spec.Gateway
 import KG.Lemmas.LocalLimiter
+import KG.Lemmas.Identity
 import KG.Props.C04
 /-!
 # Lemmas about the composed model: what each outcome of `arrive` means, and the frame of every stage
@@ -448,5 +449,84 @@ theorem inv_run {env : Env} (x : Run) (h : Inv x.s) (ops : List Op) : Inv (run e
   induction ops generalizing x with
   | nil => exact h
   | cons op ops ih => exact ih _ (inv_step h op)
+
+/-! ## headers -/
+
+/-- restricting to the identity-bearing entries does not change the values under an identity-bearing name -/
+theorem values_identityEntries (recv : Model.Identity.Headers) (n : Str) (hn : Model.Identity.isIdentityName n = true) :
+    Model.Identity.values (identityEntries recv) n = Model.Identity.values recv n := by
+  induction recv with
+  | nil => rfl
+  | cons e rest ih =>
+    obtain ⟨k, vs⟩ := e
+    unfold identityEntries at ih ⊢
+    by_cases he : Model.Identity.isIdentityName k = true
+    · simp only [List.filter_cons, he, if_true, Model.Identity.values, ih]
+    · have hne : k ≠ n := fun hh => he (by subst hh; exact hn)
+      simp only [List.filter_cons, he, Bool.false_eq_true, if_false, Model.Identity.values, hne, ih]
+
+/-- … and dropping them does not change the values under any other name -/
+theorem values_endToEnd (u : Model.Forward.UpReq) (k : Str) (hk : Model.Identity.isIdentityName k = false) :
+    (endToEnd u).headers.values k = u.headers.values k := by
+  unfold endToEnd Model.Forward.Hdr.values
+  simp only
+  congr 1
+  induction u.headers with
+  | nil => rfl
+  | cons e rest ih =>
+    obtain ⟨k', vv⟩ := e
+    by_cases he : Model.Identity.isIdentityName k' = true
+    · have hne : k' ≠ k := fun hh => by subst hh; rw [hk] at he; cases he
+      simp only [List.filter_cons, he, Bool.not_true, Bool.false_eq_true, if_false, Model.Forward.Hdr.get?, hne, ih]
+    · simp only [List.filter_cons, he, Bool.not_false, if_true, Model.Forward.Hdr.get?, ih]
+
+/-- the context user of C02's whole-path model is the one the impersonation filter computed -/
+theorem identity_ctx {env : Env} {p : Option Nat} {r : Request} {u : Model.Identity.Identity} {token : Str}
+    {recv h1 : Model.Identity.Headers} {ctx ctx' : Model.Identity.Identity}
+    (hid : Model.Identity.serve token r.lines (some u) (env.authz p u) false = .forwarded recv ctx)
+    (himp : impersonation env p r u = .pass h1 ctx') : ctx = ctx' := by
+  obtain ⟨u', hh1, hv, hu, hex, _⟩ := KG.Lemmas.Identity.serve_forwarded _ _ _ _ _ _ _ hid
+  cases hu
+  have hparse : Model.Identity.parse r.lines = some (KG.Lemmas.Identity.parsed r.lines) := by
+    rw [KG.Lemmas.Identity.parse_eq]; simp [hv]
+  have := KG.Lemmas.Identity.impersonate_spec r.lines hv u (env.authz p u)
+  unfold impersonation headersOf at himp
+  rw [hparse] at himp
+  simp only [Option.getD_some] at himp
+  rw [this] at himp
+  unfold KG.Spec.Identity.expected at hex
+  by_cases c1 : (!KG.Spec.Identity.impersonationRequested r.lines) = true
+  · simp only [c1, if_true] at hex himp
+    injection hex with hex; injection himp with _ h2
+    rw [← hex, ← h2]
+  · simp only [c1, Bool.false_eq_true, if_false] at hex himp
+    by_cases c2 : KG.Spec.Identity.malformed r.lines = true
+    · simp [c2] at hex
+    · simp only [c2, Bool.false_eq_true, if_false] at hex himp
+      by_cases c3 : KG.Spec.Identity.allAllowed (env.authz p u) r.lines = true
+      · simp only [c3, if_true] at hex himp
+        injection hex with hex; injection himp with _ h2
+        rw [← hex, ← h2]
+      · simp [c3] at hex
+
+/-! ## when the chain model says "forward", the dispatcher did its three steps -/
+
+theorem forward_dispatch {env : Env} {s : State} {r : Request} (hinv : Inv s)
+    (h : Model.Forward.serve (scenario env s r) = .forward) :
+    ∃ x n g, dispatch env s r = .done x ∧ x.acq.admitted = true ∧ x.pop.1 = .picked n g := by
+  obtain ⟨h1, h2, h3, h4, h5, h6, h7, h8, h9⟩ := (KG.Props.C04.c04_forward_iff _).1 h
+  obtain ⟨b, hb⟩ := bound_of_scenario h1 h2 h3 h4 h5 h6
+  cases hd : dispatch env s r with
+  | notReached => rw [dispatch_notReached hd] at hb; cases hb
+  | noPolicy b' => rw [scenario_policy, hd] at h7; cases h7
+  | panic e => exact absurd hd (dispatch_never_panics hinv r e)
+  | done x =>
+    rw [scenario_acquire, hd] at h8
+    rw [scenario_pop, hd] at h9
+    simp only at h8 h9
+    cases hp : x.pop.1 with
+    | picked n g => exact ⟨x, n, g, rfl, h8, hp⟩
+    | noReady => rw [hp] at h9; cases h9
+    | panic => rw [hp] at h9; cases h9
 
 end KG.Lemmas.Gateway
